@@ -211,7 +211,7 @@ package xixi_kv
 
 //@ func (*xixi_kv.Batch).flushStaged
 //@   io_effect
-//@   props C04 C05 C13 C17 C03
+//@   props C04 C05 C13 C17 C03 C01
 //@   content
 //@   requires [inv]    BATCH(b) && b.db.mu.heldW
 //@   ensures [inv]     result == nil ==> INV_db(b.db) && ACC(b.db) && posOK(b.db)
@@ -237,7 +237,7 @@ package xixi_kv
 
 //@ func (*xixi_kv.Batch).flushStagedAndUpdateFile
 //@   io_effect
-//@   props C04 C05 C17
+//@   props C04 C05 C17 C01
 //@   requires [inv]    BATCH(b) && b.db.mu.heldW && b.db.activeFile.ID < 4294967294
 //@   ensures [inv]     result == nil ==> INV_db(b.db) && ACC(b.db) && posOK(b.db) && len(b.staged) == 0 && b.cachedDataSize == 0 && len(b.db.activeFile.bufferedWrites) == 0 && stagedRecs(b) && stageIdxOK(b) && stagedOwned(b) && fresh(b.stageIndex) && arr(b.staged) == old(arr(b.staged))
 //@   ensures [err-keeps-staged] result != nil ==> arr(b.staged) == old(arr(b.staged)) && (b.stageIndex == old(b.stageIndex) || fresh(b.stageIndex))
@@ -249,7 +249,7 @@ package xixi_kv
 //@ func (*xixi_kv.Batch).Put
 //@   io_effect
 //@   ownership
-//@   props C05 C15 C09 C17
+//@   props C05 C15 C09 C17 C01
 //@   requires [inv]    INV_batch(b) && b.db.activeFile.ID < 4294967294
 //@   requires [sizes]  len(key) + len(value) <= 134217728
 //@   requires [batch-size] len(b.staged) < 268435456
@@ -260,12 +260,13 @@ package xixi_kv
 //@   ensures [value-copied] result == nil && b.db.activeFile == old(b.db.activeFile) && called("(*xixi_kv.Batch).findPendingRecord") && result_of("(*xixi_kv.Batch).findPendingRecord") != nil && len(value) > 0 ==> arr(result_of("(*xixi_kv.Batch).findPendingRecord").Value) != arr(value) && arr(result_of("(*xixi_kv.Batch).findPendingRecord").Key) != arr(key)
 //@   ensures [appended-is-put] result == nil && !old(b.committed) && len(key) > 0 && (b.db.activeFile != old(b.db.activeFile) || result_of("(*xixi_kv.Batch).findPendingRecord") == nil) ==> len(b.staged) > 0 && b.staged[len(b.staged) - 1].Type == datafile.LogRecordNormal && arr(b.staged[len(b.staged) - 1].Key) != arr(key) && (len(value) == 0 || arr(b.staged[len(b.staged) - 1].Value) != arr(value))
 //@   ensures [inv] result == nil ==> stagedRecs(b) && stageIdxOK(b) && stagedOwned(b) && len(b.staged) <= 268435456
+//@   checks [cached-size-tracks-the-staged-records] result == nil && !old(b.committed) && len(key) > 0 ==> (called("(*xixi_kv.Batch).flushStagedAndUpdateFile") ==> b.cachedDataSize == result_of("datafile.GetLogRecordDiskSize")) && (!called("(*xixi_kv.Batch).flushStagedAndUpdateFile") && result_of("(*xixi_kv.Batch).findPendingRecord") == nil ==> b.cachedDataSize == old(b.cachedDataSize) + result_of("datafile.GetLogRecordDiskSize")) && (!called("(*xixi_kv.Batch).flushStagedAndUpdateFile") && result_of("(*xixi_kv.Batch).findPendingRecord") != nil ==> b.cachedDataSize == old(b.cachedDataSize) + result_of("datafile.GetLogRecordDiskSize") - first_result_of("datafile.GetLogRecordDiskSize"))
 //@   modifies b.mu.heldW, b.staged, b.staged[*], b.stageIndex, b.stageIndex[*], arrays:int, arrays:byte, b.cachedDataSize, b.staged[*].BatchID, b.staged[*].Key, b.staged[*].Value, b.staged[*].Type, b.db.activeFile, b.db.olderFiles[*], b.db.totalSize, b.db.bytesWrite, b.db.reclaimSize, b.db.logRecordHeader[*], b.db.activeFile.lastBlockID, b.db.activeFile.lastBlockSize, b.db.activeFile.headerBuf[*], b.db.activeFile.bufferedWrites, b.db.activeFile.bufferedWrites[*], b.db.activeFile.ReadWriter.size, b.db.activeFile.ReadWriter.data, b.db.activeFile.ReadWriter.writes, b.db.activeFile.ReadWriter.durable, b.db.index.model, b.db.index.count, b.db.index.live
 
 //@ func (*xixi_kv.Batch).Delete
 //@   io_effect
 //@   ownership
-//@   props C05 C15 C09 C17
+//@   props C05 C15 C09 C17 C01
 //@   requires [inv]    INV_batch(b) && b.db.activeFile.ID < 4294967294
 //@   requires [sizes]  len(key) <= 134217728
 //@   requires [batch-size] len(b.staged) < 268435456
@@ -296,7 +297,7 @@ package xixi_kv
 
 //@ func (*xixi_kv.Batch).Commit
 //@   io_effect
-//@   props C04 C05 C09 C13 C02
+//@   props C04 C05 C09 C13 C02 C01
 //@   requires [inv]    INV_batch(b) && b.db.activeFile.ID < 4294967294
 //@   ensures [rejects-reuse] old(b.committed) ==> result == ErrBatchCommitted && b.db.mu.heldW == old(b.db.mu.heldW) && b.db.activeFile == old(b.db.activeFile) && b.db.activeFile.ReadWriter.size == old(b.db.activeFile.ReadWriter.size)
 //@   ensures [finished] b.committed && !b.mu.heldW && !b.mu.heldR
@@ -324,7 +325,7 @@ package xixi_kv
 
 // the marker's view of a finished merge whose adoption may have been interrupted any number of times:
 // each output file is still in the merge directory, or already sits in the data directory; same for the hint file
-//@ pred K_adoptDir(D) = (forall id :: {mergedC(id)} 0 <= id && id < markerJ(fs[fname(mergeDirOf(D), 0, datafile.MergeFinishedFileSuffix)]) ==> fs[fname(mergeDirOf(D), id, datafile.DataFileSuffix)] == mergedC(id) || (fs[fname(mergeDirOf(D), id, datafile.DataFileSuffix)] == 0 && fs[fname(D, id, datafile.DataFileSuffix)] == mergedC(id))) && (fs[fname(mergeDirOf(D), 0, datafile.HintFileSuffix)] == hintC || (fs[fname(mergeDirOf(D), 0, datafile.HintFileSuffix)] == 0 && fs[fname(D, 0, datafile.HintFileSuffix)] == hintC))
+//@ pred K_adoptDir(D) = fs[fname(mergeDirOf(D), 0, datafile.MergeFinishedFileSuffix)] != 0 ==> (forall id :: {mergedC(id)} 0 <= id && id < markerJ(fs[fname(mergeDirOf(D), 0, datafile.MergeFinishedFileSuffix)]) ==> fs[fname(mergeDirOf(D), id, datafile.DataFileSuffix)] == mergedC(id) || (fs[fname(mergeDirOf(D), id, datafile.DataFileSuffix)] == 0 && fs[fname(D, id, datafile.DataFileSuffix)] == mergedC(id))) && (fs[fname(mergeDirOf(D), 0, datafile.HintFileSuffix)] == hintC || (fs[fname(mergeDirOf(D), 0, datafile.HintFileSuffix)] == 0 && fs[fname(D, 0, datafile.HintFileSuffix)] == hintC))
 //@ pred K_adopt(db) = K_adoptDir(db.options.DirPath)
 
 //@ func (*xixi_kv.DB).mergePath
@@ -334,7 +335,7 @@ package xixi_kv
 
 //@ func (*xixi_kv.DB).getNonMergeFileID
 //@   io_effect
-//@   props C06 C07
+//@   props C06 C07 C02
 //@   unshared db
 //@   ensures [absent-marker-reads-zero] old(fs)[fname(dirPath, 0, datafile.MergeFinishedFileSuffix)] == 0 ==> result0 == 0 && result1 == 0
 //@   ensures [no-fs-change] fs == old(fs)
@@ -344,7 +345,7 @@ package xixi_kv
 //@ func (*xixi_kv.DB).loadMergeFiles
 //@   io_effect
 //@   per_return
-//@   props C06 C07
+//@   props C06 C07 C02
 //@   unshared db
 //@   requires [k-adopt] K_adopt(db)
 //@   let D = db.options.DirPath
@@ -509,6 +510,7 @@ package xixi_kv
 //@   at (*datafile.DataFile).WriteMergeFinRecord assert [marker-last] arg1 == nonMergeFileId && arg2 == mergeDB.activeFile.ID + 1 && arg2 <= arg1 && arg1 > 0
 //@   at (*datafile.DataFile).WriteMergeFinRecord assert [all-closed-before-marker] hintFile.closed && hintFile.ReadWriter.closed && hintFile.ReadWriter.durable == hintFile.ReadWriter.size && mergeDB.activeFile.closed && mergeDB.activeFile.ReadWriter.closed && mergeDB.activeFile.ReadWriter.durable == mergeDB.activeFile.ReadWriter.size && (forall id :: {mergeDB.olderFiles[id]} has(mergeDB.olderFiles, id) ==> mergeDB.olderFiles[id].closed && mergeDB.olderFiles[id].ReadWriter.closed && mergeDB.olderFiles[id].ReadWriter.durable == mergeDB.olderFiles[id].ReadWriter.size)
 //@   at os.RemoveAll assert [only-the-merge-directory] arg0 == mergeDirOf(db.options.DirPath)
+//@   at os.RemoveAll assert [marker-removed-before-the-directory] fs[fname(mergeDirOf(db.options.DirPath), 0, datafile.MergeFinishedFileSuffix)] == 0
 //@   at (*xixi_kv.DB).setActiveFile assert [starts-from-an-empty-merge-directory] arg0.options.DirPath == mergeDirOf(db.options.DirPath) && (forall p :: {fs[p]} fnameDir(p) == mergeDirOf(db.options.DirPath) ==> fs[p] == 0)
 //@   modifies db.mu.heldW, db.isMerging, db.hintPos, db.hintPos[*], db.activeFile, db.olderFiles[*], db.bytesWrite, db.activeFile.ReadWriter.durable
 //@   loop 1
@@ -528,3 +530,27 @@ package xixi_kv
 //@   loop 4
 //@     invariant [unlocked] !db.mu.heldW && !db.mu.heldR && db.mu == old(db.mu) && db.mu != nil && nonMergeFileId > 0 && mergePath == mergeDirOf(db.options.DirPath)
 //@     invariant [closed-so-far] hintFile.closed && hintFile.ReadWriter.closed && hintFile.ReadWriter.durable == hintFile.ReadWriter.size && mergeDB != nil && mergeDB.activeFile != nil && mergeDB.activeFile.closed && mergeDB.activeFile.ReadWriter.closed && mergeDB.activeFile.ReadWriter.durable == mergeDB.activeFile.ReadWriter.size && mergeDB.activeFile.ID < nonMergeFileId && (forall id :: {mergeDB.olderFiles[id]} has(mergeDB.olderFiles, id) ==> mergeDB.olderFiles[id] != nil && mergeDB.olderFiles[id].ReadWriter != nil && mergeDB.olderFiles[id].ID == id && mergeDB.olderFiles[id] != mergeDB.activeFile && mergeDB.olderFiles[id] != hintFile && (seen(id) ==> mergeDB.olderFiles[id].closed && mergeDB.olderFiles[id].ReadWriter.closed && mergeDB.olderFiles[id].ReadWriter.durable == mergeDB.olderFiles[id].ReadWriter.size) && (!seen(id) ==> !mergeDB.olderFiles[id].closed))
+
+// ---------------------------------------------------------------------------------------------
+// Iteration (C10): Fold, ListKeys and the user iterator walk one index snapshot; values come from the
+// positions of that snapshot, not from a second look-up
+// ---------------------------------------------------------------------------------------------
+//@ func (*xixi_kv.DB).Fold
+//@   props C10 C09
+//@   requires [api] API(db)
+//@   ensures [unlocked] !db.mu.heldW && !db.mu.heldR
+//@   at (*xixi_kv.DB).getValueByPosition assert [value-at-the-snapshot-position] arg1 == result_of("(*index.IndexIterator).Value") && arg0 == db
+//@   checks [walks-one-snapshot-from-its-start] called("(*index.ShardedIndex).Iterator") && called("(*index.IndexIterator).Rewind") && called("(*index.IndexIterator).Close")
+//@   modifies db.mu.heldR, type:index.IndexIterator.heap, type:index.IndexIterator.oldItems, type:index.iterHeap.items, arrays:index.iterator, type:index.mapIterator.curIndex, type:index.skipListIterator.curIndex, type:index.btreeIterator.current, type:index.btreeIterator.isIterable, type:index.mapIterator.values, type:index.skipListIterator.values, type:index.btreeIterator.tree
+//@   loop 1
+//@     invariant [walking] API(db) && iterator != nil && fresh(iterator) && (iterator.heap != nil ==> INV_iter(iterator)) && iterator.heap != nil
+
+//@ func (*xixi_kv.DB).ListKeys
+//@   props C10 C09
+//@   content
+//@   requires [api] API(db)
+//@   ensures [unlocked] !db.mu.heldW && !db.mu.heldR
+//@   checks [walks-one-snapshot-from-its-start] called("(*index.ShardedIndex).Iterator") && called("(*index.IndexIterator).Rewind") && called("(*index.IndexIterator).Close")
+//@   modifies type:index.IndexIterator.heap, type:index.IndexIterator.oldItems, type:index.iterHeap.items, arrays:index.iterator, type:index.mapIterator.curIndex, type:index.skipListIterator.curIndex, type:index.btreeIterator.current, type:index.btreeIterator.isIterable, type:index.mapIterator.values, type:index.skipListIterator.values, type:index.btreeIterator.tree
+//@   loop 1
+//@     invariant [walking] API(db) && iterator != nil && fresh(iterator) && iterator.heap != nil && INV_iter(iterator) && (arr(keys) == 0 || fresh(keys))
